@@ -150,7 +150,9 @@ impl Mux {
 pub fn enc_ts(prefix: u8, v: u64) -> [u8; 5] {
     [(prefix << 4) | ((((v >> 30) & 7) as u8) << 1) | 1, (v >> 22) as u8, ((((v >> 15) & 0x7f) as u8) << 1) | 1, (v >> 7) as u8, (((v & 0x7f) as u8) << 1) | 1]
 }
-pub struct PesSpec { pub stream_id: u8, pub pts: Option<u64>, pub dts: Option<u64>, pub extra_hdr: usize, pub bounded: bool, pub payload: Vec<u8> }
+pub struct PesSpec { pub stream_id: u8, pub pts: Option<u64>, pub dts: Option<u64>, pub extra_hdr: usize, pub bounded: bool, pub payload: Vec<u8>,
+                     /// ESCR / ES_rate / trick mode / copy info / CRC / extension flags (low 6 bits of the flags byte) and the bytes to fill them with
+                     pub opt_flags: u8, pub opt_fill: Vec<u8> }
 /// header-less stream ids (no optional header)
 pub fn headerless(sid: u8) -> bool { matches!(sid, 0xbc | 0xbe | 0xbf | 0xf0 | 0xf1 | 0xff | 0xf2 | 0xf8) }
 /// returns (bytes of the whole PES packet, header length)
@@ -159,8 +161,15 @@ pub fn pes_packet(s: &PesSpec) -> (Vec<u8>, usize) {
     if !headerless(s.stream_id) {
         let mut opt = vec![];
         let flags = match (s.pts, s.dts) { (Some(p), Some(d)) => { opt.extend(enc_ts(3, p)); opt.extend(enc_ts(1, d)); 0xC0 } (Some(p), None) => { opt.extend(enc_ts(2, p)); 0x80 } _ => 0 };
+        let mut fill = s.opt_fill.iter().cloned().cycle();
+        let mut nx = || fill.next().unwrap_or(0xff);
+        if s.opt_flags & 0x20 != 0 { for _ in 0..6 { opt.push(nx()); } }
+        if s.opt_flags & 0x10 != 0 { for _ in 0..3 { opt.push(nx()); } }
+        if s.opt_flags & 0x08 != 0 { opt.push(nx()); }
+        if s.opt_flags & 0x04 != 0 { opt.push(nx() | 0x80); }
+        if s.opt_flags & 0x02 != 0 { opt.push(nx()); opt.push(nx()); }
         opt.extend(std::iter::repeat(0xff).take(s.extra_hdr));
-        v.extend_from_slice(&[0x80 | 0x04, flags, opt.len() as u8]);
+        v.extend_from_slice(&[0x80 | (nx() & 0x3f), flags | (s.opt_flags & 0x3f), opt.len() as u8]);
         v.extend(opt);
     }
     let hl = v.len();
